@@ -65,6 +65,20 @@ def main(argv=None):
         print("ANALYSIS-BROKEN property=%s: cannot load the check: %r" % (pid, e), file=sys.stderr)
         return 2
     chk = report.Check(pid, a.tier, getattr(mod, "LEVEL", LEVELS.get(pid, "other")), seed)
+    # watchdog: a check that does not finish is analysis-broken, never a silent hang (a computer-algebra step can blow
+    # up on a changed formula); generous limits, overridable
+    try:
+        import signal
+        limit = int(os.environ.get("CMIV_TIME_LIMIT", "1800" if a.tier == "quick" else "14400"))
+
+        def _expired(signum, frame):
+            print("ANALYSIS-BROKEN property=%s: the check did not finish within %d s" % (pid, limit), file=sys.stderr)
+            sys.stderr.flush()
+            os._exit(2)
+        signal.signal(signal.SIGALRM, _expired)
+        signal.alarm(limit)
+    except (ValueError, OSError):
+        pass
     if os.environ.get("CMIV_TRACE_AFTER"):
         import faulthandler
         faulthandler.dump_traceback_later(int(os.environ["CMIV_TRACE_AFTER"]), exit=True)
